@@ -3,6 +3,7 @@ package c16
 import (
 	"fmt"
 	"io"
+	"regexp"
 	"sort"
 	"sync"
 	"time"
@@ -85,10 +86,28 @@ func (h *captureHook) Fire(e *log.Entry) error {
 		if err != nil {
 			b = []byte("format-error: " + err.Error())
 		}
-		c.Formatted = append(c.Formatted, append([]byte{}, b...))
+		c.Formatted = append(c.Formatted, maskIntegrity(append([]byte{}, b...)))
 	}
 	h.entries = append(h.entries, c)
 	return nil
+}
+
+// integrityValue: the value the audit-log hook appends – 64 hex digits of an HMAC chain over ALL earlier entries of the
+// process (their order depends on goroutine scheduling). It is no statement data, and random hex digits do collide with
+// short numeric needles now and then (seen: needle 70301244 inside …a370301244e5…): the LAST such value of an entry is
+// blanked before the entry is searched.
+var integrityValue = regexp.MustCompile(`(integrity(?:=|":"))([0-9a-f]{64})`)
+
+func maskIntegrity(b []byte) []byte {
+	ms := integrityValue.FindAllSubmatchIndex(b, -1)
+	if len(ms) == 0 {
+		return b
+	}
+	m := ms[len(ms)-1]
+	for i := m[4]; i < m[5]; i++ {
+		b[i] = 'h'
+	}
+	return b
 }
 
 type nullFormatter struct{}
